@@ -295,7 +295,10 @@ pub fn build(p: &mut P25) -> Prog {
 pub fn gen_prog(idx: usize, rng: &mut Rng, rejects: &mut Vec<String>, fns: &mut BTreeMap<String, String>) -> P25 {
     loop {
         let n_src = 2 + rng.below(3);
-        let n_states = 1 + rng.below(3);
+        let mut n_states = 1 + rng.below(3);
+        if idx % 4 == 0 {
+            n_states = n_states.max(2);
+        }
         let n_readers = 2 + rng.below(4);
         let mut states = Vec::new();
         for j in 0..n_states {
@@ -310,8 +313,10 @@ pub fn gen_prog(idx: usize, rng: &mut Rng, rejects: &mut Vec<String>, fns: &mut 
         }
         // which readers reference which state: every state gets >= 2 readers when there are enough readers
         let mut refs: Vec<Vec<usize>> = vec![Vec::new(); n_readers]; // reader -> states
+        // coverage: every fourth program has a state with a single `#mut x`, every fourth one with only `#x` readers
+        let force = idx % 4;
         for j in 0..n_states {
-            let want = 2 + rng.below(n_readers - 1);
+            let want = if force == 0 && j == 0 { 1 } else { 2 + rng.below(n_readers - 1) };
             let mut order: Vec<usize> = (0..n_readers).collect();
             rng.shuffle(&mut order);
             let mut n = 0;
@@ -327,7 +332,8 @@ pub fn gen_prog(idx: usize, rng: &mut Rng, rejects: &mut Vec<String>, fns: &mut 
         }
         for r in 0..n_readers {
             if refs[r].is_empty() {
-                refs[r].push(rng.below(n_states));
+                let j = if force == 0 { 1 + rng.below(n_states - 1) } else { rng.below(n_states) };
+                refs[r].push(j);
             }
         }
         // access groups per state, monotone in the reader index (=> no cyclic ordering constraints)
@@ -340,15 +346,17 @@ pub fn gen_prog(idx: usize, rng: &mut Rng, rejects: &mut Vec<String>, fns: &mut 
             for (k, &r) in rs.iter().enumerate() {
                 // a reader holding a mutable reference elsewhere stays shared here (at most one `#mut` per closure)
                 let already_mut = uses[r].iter().any(|u: &RefUse| u.mutf.is_some());
-                let mutable = !already_mut && rng.chance(1, 3);
-                if k > 0 && (mutable || prev_mut || rng.chance(2, 5)) {
+                let forced = j == 0 && (force == 1 || (force == 0 && rs.len() == 1));
+                let mutable = if forced { force == 0 } else { !already_mut && rng.chance(1, 3) };
+                if k > 0 && !forced && (mutable || prev_mut || rng.chance(2, 5)) {
                     g += 1 + rng.below(3) as u32;
                 }
                 assigned.push((r, g, mutable));
                 prev_mut = mutable;
             }
             let n_groups = assigned.iter().map(|a| a.1).collect::<std::collections::BTreeSet<_>>().len();
-            let implicit = n_groups == 1 && rng.chance(3, 4);
+            let implicit = n_groups == 1 && (rng.chance(3, 4) || (j == 0 && force <= 1));
+            let _ = idx;
             for (r, g, m) in assigned {
                 uses[r].push(RefUse { state: j, group: if implicit { None } else { Some(g) }, mutf: if m { Some(rng.below(3) as u8) } else { None } });
             }
